@@ -1567,6 +1567,15 @@ impl FixtureDatabase {
         cycles
     }
 
+    /// Verification hook (off by default): sets the iteration limit of the cycle DFS
+    /// (0 = none), resets its counter and returns the iterations counted so far.
+    #[cfg(pytest_language_server_verif)]
+    pub fn verif_cycle_dfs_reset(limit: u64) -> u64 {
+        use std::sync::atomic::Ordering;
+        verif_cycle_dfs::LIMIT.store(limit, Ordering::Relaxed);
+        verif_cycle_dfs::STEPS.swap(0, Ordering::Relaxed)
+    }
+
     /// Actually compute fixture cycles using iterative DFS (Tarjan-like approach).
     /// Uses iterative algorithm to avoid stack overflow on deep dependency graphs.
     fn compute_fixture_cycles(&self) -> Vec<super::types::FixtureCycle> {
@@ -1613,6 +1622,8 @@ impl FixtureDatabase {
             let mut rec_stack: HashSet<String> = HashSet::new();
 
             while let Some((current, idx, mut path)) = stack.pop() {
+                #[cfg(pytest_language_server_verif)]
+                verif_cycle_dfs::step();
                 if idx == 0 {
                     // First time visiting this node
                     if rec_stack.contains(&current) {
@@ -1844,5 +1855,22 @@ impl FixtureDatabase {
             _ => {}
         }
         None
+    }
+}
+
+/// Verification hook (off by default): counts the iterations of the cycle DFS and
+/// panics past a limit set by an external harness, so that a search that stopped
+/// being linear is reported without waiting for the clock.
+#[cfg(pytest_language_server_verif)]
+mod verif_cycle_dfs {
+    use std::sync::atomic::{AtomicU64, Ordering};
+    pub static STEPS: AtomicU64 = AtomicU64::new(0);
+    pub static LIMIT: AtomicU64 = AtomicU64::new(0);
+    pub fn step() {
+        let steps = STEPS.fetch_add(1, Ordering::Relaxed) + 1;
+        let limit = LIMIT.load(Ordering::Relaxed);
+        if limit > 0 && steps > limit {
+            panic!("verif: cycle DFS exceeded {} iterations", limit);
+        }
     }
 }
